@@ -5,15 +5,16 @@ import (
 	"compress/flate"
 	"crypto/aes"
 	"crypto/cipher"
-	"crypto/rand"
 	"crypto/rsa"
 	"crypto/sha1"
 	"crypto/sha256"
 	"crypto/sha512"
 	"encoding/base64"
+	"errors"
 	"fmt"
 	"hash"
 	"io"
+	"math/big"
 
 	"github.com/russellhaering/gosaml2/types"
 
@@ -114,12 +115,84 @@ func oaepHash(digest string) hash.Hash {
 	return sha1.New()
 }
 
-// WrapKey transports the symmetric key to the recipient.
-func WrapKey(keyAlg, digest string, pub *rsa.PublicKey, key []byte) ([]byte, error) {
-	if keyAlg == types.MethodRSAv1_5 {
-		return rsa.EncryptPKCS1v15(rand.Reader, pub, key)
+// WrapKey transports the symmetric key to the recipient. The padding is written here
+// (EME-OAEP / EME-PKCS1-v1_5 over a raw RSA operation) instead of calling crypto/rsa's
+// encryptors, because those deliberately consume a non-deterministic amount of randomness;
+// with rnd drawn from the tape every ciphertext byte is a pure function of the run seed.
+func WrapKey(keyAlg, digest string, pub *rsa.PublicKey, key []byte, rnd io.Reader) ([]byte, error) {
+	if rnd == nil {
+		rnd = &constReader{}
 	}
-	return rsa.EncryptOAEP(oaepHash(digest), rand.Reader, pub, key, nil)
+	k := pub.Size()
+	var em []byte
+	if keyAlg == types.MethodRSAv1_5 {
+		if len(key) > k-11 {
+			return nil, errors.New("message too long for RSA key")
+		}
+		em = make([]byte, k)
+		em[1] = 2
+		ps := em[2 : k-len(key)-1]
+		io.ReadFull(rnd, ps)
+		for i := range ps {
+			if ps[i] == 0 {
+				ps[i] = 0x5a
+			}
+		}
+		copy(em[k-len(key):], key)
+	} else {
+		h := oaepHash(digest)
+		hLen := h.Size()
+		if len(key) > k-2*hLen-2 {
+			return nil, errors.New("message too long for RSA key")
+		}
+		h.Reset()
+		lHash := h.Sum(nil)
+		em = make([]byte, k)
+		seed := em[1 : 1+hLen]
+		db := em[1+hLen:]
+		copy(db, lHash)
+		db[len(db)-len(key)-1] = 1
+		copy(db[len(db)-len(key):], key)
+		io.ReadFull(rnd, seed)
+		mgf1XOR(db, h, seed)
+		mgf1XOR(seed, h, db)
+	}
+	m := new(big.Int).SetBytes(em)
+	c := new(big.Int).Exp(m, big.NewInt(int64(pub.E)), pub.N)
+	out := make([]byte, k)
+	c.FillBytes(out)
+	return out, nil
+}
+
+func mgf1XOR(out []byte, h hash.Hash, seed []byte) {
+	var counter [4]byte
+	done := 0
+	for done < len(out) {
+		h.Reset()
+		h.Write(seed)
+		h.Write(counter[:])
+		d := h.Sum(nil)
+		for i := 0; i < len(d) && done < len(out); i++ {
+			out[done] ^= d[i]
+			done++
+		}
+		for i := 3; i >= 0; i-- {
+			counter[i]++
+			if counter[i] != 0 {
+				break
+			}
+		}
+	}
+}
+
+type constReader struct{ n byte }
+
+func (c *constReader) Read(p []byte) (int, error) {
+	for i := range p {
+		c.n += 7
+		p[i] = c.n | 1
+	}
+	return len(p), nil
 }
 
 // EncryptedAssertionXML builds the EncryptedAssertion element around given ciphertext
@@ -150,7 +223,7 @@ func EncryptAssertion(o *EncOpts, pt []byte) (string, error) {
 	if err != nil {
 		return "", err
 	}
-	ek, err := WrapKey(o.KeyAlg, o.Digest, o.Recipient, key)
+	ek, err := WrapKey(o.KeyAlg, o.Digest, o.Recipient, key, o.Rand)
 	if err != nil {
 		return "", err
 	}
